@@ -354,6 +354,11 @@ def build(t: dict, L):
     raise MachineryError(f"cannot realise tree kind {k}")
 
 
+def complex_only_function(t):
+    """real/imag/conj nodes exist only in complex kernels (UFL strips them in real mode)."""
+    return (t["k"] == "MathFunction" and t["s"] in ("real", "imag", "conj")) or any(complex_only_function(c) for c in t["a"])
+
+
 def has_kind(t, kind):
     return t["k"] == kind or any(has_kind(c, kind) for c in t["a"])
 
@@ -575,7 +580,7 @@ def run_enumerated(chk, trees, quick: bool):
     skipped_complex = 0
     nontrivial = set()
     for t in trees:
-        cplx = has_kind(t, "Complex")
+        cplx = has_kind(t, "Complex") or complex_only_function(t)
         for st in SCALAR_TYPES:
             if cplx and not st.startswith("complex"):
                 skipped_complex += 1
@@ -670,6 +675,13 @@ def stokes_th():
 def quad_mass_gll():
     m, V = _space("quadrilateral", deg=2); u, v = TrialFunction(V), TestFunction(V); x = SpatialCoordinate(m)
     return [(1 + x[0] * x[1]) * inner(u, v) * dx, inner(u, v) * dx(metadata={"quadrature_rule": "GLL", "quadrature_degree": 2})]
+def tp_sumfact():
+    import basix
+    def tp(cell, deg, shape=None):
+        e = basix.ufl.wrap_element(basix.create_tp_element(basix.ElementFamily.P, cell, deg, basix.LagrangeVariant.gll_warped))
+        return basix.ufl.blocked_element(e, shape=shape) if shape else e
+    m = Mesh(tp(basix.CellType.quadrilateral, 1, (2,))); V = FunctionSpace(m, tp(basix.CellType.quadrilateral, 2))
+    u, v = TrialFunction(V), TestFunction(V); return [inner(grad(u), grad(v)) * dx]
 def hex_nonlinear():
     m, V = _space("hexahedron", deg=1); v = TestFunction(V); f = Coefficient(V)
     return [(1 + f ** 2) * inner(grad(f), grad(v)) * dx - inner(f, v) * dx]
@@ -688,7 +700,7 @@ def expression_interp():
     m, V = _space("triangle", deg=2); f = Coefficient(V)
     return [(grad(f) * sin(f), np.array([[0.0, 0.0], [1.0, 0.0], [0.0, 1.0], [0.25, 0.25]]))]
 FORMS = {f.__name__: f for f in [mass_p1_interval, poisson_p2_triangle, vector_tet, conditional_form, math_form, math_complex, dg_facets,
-                                 stokes_th, quad_mass_gll, hex_nonlinear, hcurl_mass, complex_sesq, vertex_and_custom,
+                                 stokes_th, quad_mass_gll, tp_sumfact, hex_nonlinear, hcurl_mass, complex_sesq, vertex_and_custom,
                                  expression_interp]}
 '''
 COMPLEX_ONLY = {"complex_sesq", "math_complex"}
@@ -829,7 +841,7 @@ def run_corpus(chk, quick: bool):
             jobs.append({"kind": "form", "name": name, "st": st})
     if quick:
         jobs.append({"kind": "form", "name": "poisson_p2_triangle", "st": "float32"})
-        jobs.append({"kind": "form", "name": "quad_mass_gll", "st": "float64", "opts": {"sum_factorization": True}})
+        jobs.append({"kind": "form", "name": "tp_sumfact", "st": "float64", "opts": {"sum_factorization": True}})
     else:
         for f in sorted((REPO / "demo").glob("*.py")):
             if f.name.startswith("test_"):
@@ -838,8 +850,8 @@ def run_corpus(chk, quick: bool):
                 if f.name == "ComplexPoisson.py" and not st.startswith("complex"):
                     continue
                 jobs.append({"kind": "demo", "name": str(f), "st": st})
-        jobs.append({"kind": "form", "name": "quad_mass_gll", "st": "float64", "opts": {"sum_factorization": True}})
-        jobs.append({"kind": "form", "name": "hex_nonlinear", "st": "float64", "opts": {"sum_factorization": True}})
+        for st in ("float64", "float32"):
+            jobs.append({"kind": "form", "name": "tp_sumfact", "st": st, "opts": {"sum_factorization": True}})
     rng = random.Random(chk.seed)
     rng.shuffle(jobs)
     nproc = 4
